@@ -1037,8 +1037,10 @@ def oracle(c, obs):
     if r["code"] == 2:
         return "%s changed the statement outside the parameter: %r vs bound %r" % (what, r["full"][:160], (r["pre"] + "<P>" + r["post"])[:160])
     lit, post, pre = r["lit"], r["post"], r["pre"]
-    dp = _dialect(cfg).identifier_preparer._double_percents
-    drv = py_collapse if dp else (lambda x: x)
+    # what the DBAPI does is a fact about the driver, not read from the code under test:
+    # format / pyformat drivers apply  statement % parameters
+    ps = cfg[2] if cfg[2] != 6 else DEFAULT_PS[cfg[0]]
+    drv = py_collapse if ps in (1, 2) else (lambda x: x)
     em, npre = _server_mode(cfg)
     tail = drv(lit + post)
     dpost = drv(post)
